@@ -5,7 +5,7 @@
    os.fsdecode are taken as mutually inverse on file names - surrogateescape - which is validated by the
    harness, not proved), so that erasing the tags of the typed transcription below gives back the
    validated byte-level model [Emitter.emit]. *)
-Require Import WD.Base.Prelude WD.Base.BStr WD.Model.SubEvents WD.Model.Emitter WD.Model.Fs.
+Require Import WD.Base.Prelude WD.Base.BStr WD.Model.SubEvents WD.Model.Emitter WD.Model.Fs WD.Model.Reader.
 
 (* ------------------------------------------------------------------ names *)
 (* the watched root followed by real, valid entry names *)
@@ -47,6 +47,12 @@ Definition op_names_ok (o : op) : Prop :=
   | Touch p | Write p | Chmod p | Unlink p | Mkdir p | Rmdir p => valid_name (basename p) = true
   | Rename p q => valid_name (basename p) = true /\ valid_name (basename q) = true
   end.
+
+(* the reader invariant: every path stored in _path_for_wd, _wd_for_path and _moved_from_events is rooted *)
+Record path_inv (root : bytes) (r : rstate) : Prop := mkPI {
+  pi_pfw : forall wd p, In (wd, p) (pfw r) -> rooted root p;
+  pi_wfp : forall p wd, In (p, wd) (wfp r) -> rooted root p;
+  pi_mvf : forall c p, In (c, p) (mvf r) -> rooted root p }.
 
 (* ------------------------------------------------------------------ types *)
 Inductive ptag := TStr | TBytes.
